@@ -46,6 +46,8 @@ struct Expect {
     spectrum: Option<Vec<C>>,
     charpoly: Option<Vec<f64>>,
     real_sep: Option<RealSep>,
+    /// Some(true): the exact spectrum has a multiple eigenvalue; Some(false): all simple; None: unknown
+    multiple: Option<bool>,
 }
 
 // calibration: worst observed value / tolerance per clause
@@ -162,8 +164,16 @@ fn judge<T: RealNumber>(base: &Mat, sym: bool, sexp: i32, exp: &Expect) -> Out {
     let evd = match r {
         Err(p) => {
             let over = p.is_overflow_check();
+            let mut site = panic_site(comp, &p);
+            if site.ends_with("panic-no-convergence") {
+                site.push_str(match exp.multiple {
+                    Some(true) => ":repeated-eigenvalue",
+                    Some(false) => ":simple-spectrum",
+                    None => ":multiplicity-unknown",
+                });
+            }
             out.panic = Some((
-                panic_site(comp, &p),
+                site,
                 format!(
                     "{} of {} (n={}, {}, scale 2^{}): {}{}",
                     if sym { "evd(true)" } else { "evd(false)" },
@@ -468,7 +478,10 @@ fn exec_case(label: &str, base: &Mat, sym: bool, sexp: i32, width: u8, exp: &Exp
 // ------------------------------------------------------------------------------------------------
 // lattice
 
-fn positions(shape: &str, sym: bool, n: usize) -> Vec<(usize, usize)> {
+/// Free entries of a lattice shape: (row, column, first alphabet index, number of alternatives).
+/// `k` is the alphabet size (SIGMA[0..k]). Shapes: "full"; "tridiag" (symmetric tridiagonal);
+/// "hess" (upper Hessenberg); "hess1" (unreduced upper Hessenberg: sub-diagonal entries in {1,-1}).
+fn positions(shape: &str, sym: bool, n: usize, k: usize) -> Vec<(usize, usize, usize, usize)> {
     let mut p = Vec::new();
     for i in 0..n {
         for j in 0..n {
@@ -476,11 +489,15 @@ fn positions(shape: &str, sym: bool, n: usize) -> Vec<(usize, usize)> {
                 ("full", true) => j >= i,
                 ("full", false) => true,
                 ("tridiag", true) => j == i || j == i + 1,
-                ("hess", false) => j + 1 >= i,
+                ("hess", false) | ("hess1", false) => j + 1 >= i,
                 _ => panic!("unknown lattice shape {} (sym={})", shape, sym),
             };
             if keep {
-                p.push((i, j));
+                if shape == "hess1" && i == j + 1 {
+                    p.push((i, j, 1, 2));
+                } else {
+                    p.push((i, j, 0, k));
+                }
             }
         }
     }
@@ -492,11 +509,11 @@ fn lattice_case(job: &Job) {
     let (sexp, width) = (job.i("sexp") as i32, job.u("width") as u8);
     let (mul, add) = (job.i("mul"), job.i("add"));
     let shape = job.s("shape");
-    let pos = positions(shape, sym, n);
+    let pos = positions(shape, sym, n, k);
     let lead: Vec<usize> = job.params["lead"].as_array().map(|a| a.iter().map(|x| x.as_u64().unwrap() as usize).collect()).unwrap_or_default();
     let mut ib = vec![vec![0i64; n]; n];
-    for (t, &(i, j)) in pos.iter().enumerate() {
-        let idx = if t < lead.len() { lead[t] } else { mc::choose(k) };
+    for (t, &(i, j, lo, cnt)) in pos.iter().enumerate() {
+        let idx = lo + if t < lead.len() { lead[t] } else { mc::choose(cnt) };
         let val = if add == 0 { mul * SIGMA[idx] } else { 4 * mul * SIGMA[idx] + add };
         ib[i][j] = val;
         if sym {
@@ -513,7 +530,10 @@ fn lattice_case(job: &Job) {
             // tiny integer matrices with gaps >= h: the eigenvector matrix is well conditioned, no cond factor
             exp.real_sep = Some(RealSep { intervals: iv, slack: 0.5 * h, cond: 1.0 });
         }
+        exp.multiple = Some(orc::has_multiple_root(&cp));
         exp.charpoly = Some(cp.iter().map(|x| *x as f64).collect());
+    } else {
+        exp.multiple = None;
     }
     exec_case("lattice", &base, sym, sexp_eff, width, &exp, &[]);
 }
@@ -529,7 +549,19 @@ fn family_case(job: &Job) {
     let sexp = mc::pick(&scales);
     let width = mc::pick(&[64u8, 32u8]);
     let c = if sym { fam::sym_case(fam_name, n, v, seed) } else { fam::gen_case(fam_name, n, v, seed) };
-    let mut exp = Expect { spectrum: c.spectrum.clone(), charpoly: c.charpoly.clone(), real_sep: None };
+    let mut exp = Expect { spectrum: c.spectrum.clone(), charpoly: c.charpoly.clone(), real_sep: None, multiple: None };
+    exp.multiple = if let Some(cp) = &c.charpoly {
+        Some(orc::has_multiple_root(&cp.iter().map(|x| *x as i64).collect::<Vec<_>>()))
+    } else if let Some(sp) = &c.spectrum {
+        let scale = sp.iter().map(|z| orc::cabs(*z)).fold(0.0f64, f64::max).max(1e-300);
+        Some((0..sp.len()).any(|i| (0..i).any(|j| orc::cabs((sp[i].0 - sp[j].0, sp[i].1 - sp[j].1)) <= 1e-9 * scale)))
+    } else if c.real_sep.is_some() {
+        Some(false)
+    } else if c.tags.contains(&"gen_fam_defective") {
+        Some(true)
+    } else {
+        None
+    };
     if let Some(eigs) = &c.real_sep {
         let mut sorted = eigs.clone();
         sorted.sort_by(|x, y| x.partial_cmp(y).unwrap());
@@ -539,16 +571,37 @@ fn family_case(job: &Job) {
     exec_case(&c.desc, &c.a, sym, sexp, width, &exp, &c.tags);
 }
 
-fn lattice_jobs(jobs: &mut Vec<Job>, sym: bool, shape: &str, n: usize, k: usize, variants: &[(i32, u8)], target: u64, seed: u64) {
+fn lattice_jobs(jobs: &mut Vec<Job>, spaces: &mut Vec<String>, sym: bool, shape: &str, n: usize, k: usize, variants: &[(i32, u8)], target: u64, seed: u64) {
     let (mul, add) = PERTURB[(seed % 8) as usize];
-    let npos = positions(shape, sym, n).len();
+    let pos = positions(shape, sym, n, k);
+    let size_from = |l: usize| -> u64 { pos[l..].iter().fold(1u64, |a, p| a.saturating_mul(p.3 as u64)) };
+    spaces.push(format!(
+        "{} {} n={} over Sigma{}: {} matrices x {} (scale, width) variants {:?}",
+        if sym { "symmetric" } else { "general" },
+        shape,
+        n,
+        k,
+        size_from(0),
+        variants.len(),
+        variants.iter().map(|v| format!("2^{}/f{}", v.0, v.1)).collect::<Vec<_>>()
+    ));
     let mut lead_len = 0usize;
-    while (k as u64).pow((npos - lead_len) as u32) > target && lead_len < npos {
+    while size_from(lead_len) > target && lead_len < pos.len() {
         lead_len += 1;
     }
     let mut leads: Vec<Vec<usize>> = vec![Vec::new()];
-    for _ in 0..lead_len {
-        leads = leads.iter().flat_map(|l| (0..k).map(move |x| { let mut m = l.clone(); m.push(x); m })).collect();
+    for t in 0..lead_len {
+        let cnt = pos[t].3;
+        leads = leads
+            .iter()
+            .flat_map(|l| {
+                (0..cnt).map(move |x| {
+                    let mut m = l.clone();
+                    m.push(x);
+                    m
+                })
+            })
+            .collect();
     }
     for &(sexp, width) in variants {
         for l in &leads {
@@ -584,12 +637,13 @@ impl Harness for C02 {
         let unit: Vec<(i32, u8)> = vec![(0, 64), (0, 32)];
         let target: u64 = if t { 2_000_000 } else { 150_000 };
         let mut jobs: Vec<Job> = Vec::new();
+        let mut spaces: Vec<String> = Vec::new();
         // ---- lattices, simplest first
         for n in 1..=3 {
-            lattice_jobs(&mut jobs, true, "full", n, 5, &variants, target, seed);
+            lattice_jobs(&mut jobs, &mut spaces, true, "full", n, 5, &variants, target, seed);
         }
         for n in 1..=2 {
-            lattice_jobs(&mut jobs, false, "full", n, 5, &variants, target, seed);
+            lattice_jobs(&mut jobs, &mut spaces, false, "full", n, 5, &variants, target, seed);
         }
         // ---- structured families
         let nmax = if t { 30 } else { 12 };
@@ -606,23 +660,59 @@ impl Harness for C02 {
             }
         }
         // ---- the larger lattices
-        lattice_jobs(&mut jobs, true, "full", 4, 3, &variants, target, seed);
-        lattice_jobs(&mut jobs, false, "full", 3, if t { 5 } else { 4 }, &variants, target, seed);
+        lattice_jobs(&mut jobs, &mut spaces, true, "full", 4, 3, &variants, target, seed);
+        lattice_jobs(&mut jobs, &mut spaces, false, "full", 3, if t { 5 } else { 4 }, &variants, target, seed);
         if t {
-            lattice_jobs(&mut jobs, true, "full", 4, 5, &variants, target, seed);
-            lattice_jobs(&mut jobs, true, "full", 5, 3, &variants, target, seed);
-            lattice_jobs(&mut jobs, false, "full", 4, 3, &variants, target, seed);
-            lattice_jobs(&mut jobs, true, "tridiag", 6, 5, &unit, target, seed);
+            lattice_jobs(&mut jobs, &mut spaces, true, "full", 4, 5, &variants, target, seed);
+            lattice_jobs(&mut jobs, &mut spaces, true, "full", 5, 3, &variants, target, seed);
+            lattice_jobs(&mut jobs, &mut spaces, false, "full", 4, 3, &variants, target, seed);
+            lattice_jobs(&mut jobs, &mut spaces, true, "tridiag", 6, 5, &unit, target, seed);
+            lattice_jobs(&mut jobs, &mut spaces, false, "hess1", 5, 3, &unit[..1], target, seed);
+        } else {
+            lattice_jobs(&mut jobs, &mut spaces, false, "hess", 4, 3, &unit, target, seed);
         }
-        let _ = &unit;
         Plan {
             jobs,
             budget_s: if t { 2700 } else { 40 },
             case_deadline_ms: 20_000,
-            floors: vec![],
+            floors: vec![
+                ("sym_returned", 100_000),
+                ("gen_returned", 300_000),
+                ("f32_cases", 100_000),
+                ("scaled_cases", 100_000),
+                ("gen_complex_pair_cases", 100_000),
+                ("gen_mixed_real_complex", 50_000),
+                ("gen_two_complex_pairs", 1_000),
+                ("gen_real_columns_checked", 500_000),
+                ("gen_balancing_nontrivial", 10_000),
+                ("gen_certified_real_separated", 10_000),
+                ("gen_elmhes_pivot_candidate", 10_000),
+                ("gen_repeated_eigenvalue", 1_000),
+                ("gen_fam_exceptional_shift_candidate", 100),
+                ("gen_fam_badly_balanced", 100),
+                ("gen_fam_defective", 100),
+                ("gen_fam_normal", 500),
+                ("gen_fam_real_separated", 200),
+                ("gen_fam_complex", 1_000),
+                ("sym_direct_sum", 500),
+                ("sym_fam_deflation", 200),
+                ("sym_repeated_eigenvalue", 500),
+                ("sym_singular", 500),
+                ("sym_tred2_zero_scale_row", 200),
+                ("sym_indefinite", 1_000),
+                ("sym_fam_closed_form", 100),
+                ("sym_fam_rank_deficient", 100),
+                ("sym_fam_repeated", 300),
+            ],
             bounds: json!({
                 "scales": scales.iter().map(|s| format!("2^{}", s)).collect::<Vec<_>>(),
                 "widths": ["f64", "f32"],
+                "alphabet": format!("Sigma5 = {{0,1,-1,2,-2}} (Sigma4, Sigma3 = its prefixes); seed perturbation (mul, quarter offset) = {:?}", PERTURB[(seed % 8) as usize]),
+                "lattices": spaces,
+                "structured_families": format!(
+                    "every member of the symmetric families {:?} and the general families {:?} for n = 1..{}, each at every scale and width (companion matrices up to degree {})",
+                    fam::SYM_FAMILIES, fam::GEN_FAMILIES, nmax, if t { 8 } else { 6 }
+                ),
             }),
         }
     }
